@@ -23,6 +23,25 @@ add("C19", "E1+X", "property-based testing: repeat-and-compare in-process and ac
     "Exploration: each generated input (weighted towards multi-diagnostic ones) is expanded three times in-process and by 3-6 fresh processes; results must be identical, diagnostics compared as a sequence.",
     TB + "; hash seeds are sampled through std's per-instance / per-process RandomState, not enumerated", "DESIGN.md 3/C19")
 
+add("C04", "E1", "property-based testing: generated trait-instruction sets, README-table oracle + permutation metamorphic relation",
+    "Exploration: random exact covers of (kind, fallibility) cells by the 24 instruction names over 8 counterpart type forms and 5 error type forms; the multiset of impl headers (trait, T vs &T, self type, method, type Error) must equal an independently transcribed table, and must not change under permutation of the instructions.",
+    TB + "; the header table transcribed from README lines 190-264 is the oracle", "DESIGN.md 3/C04")
+add("C05", "E1", "property-based testing: reference-model oracle (independent select()) + add-one non-interference metamorphic relation",
+    "Exploration: tie-free random sets of member instructions with unique markers on one member, all 12 kinds x 1-3 counterparts; an independent implementation of the precedence chain stated in the property predicts which marker each of the impls contains; adding an instruction in a free cell must leave every impl with unchanged winner token-identical.",
+    TB + "; the reference select() encodes the property text (fallible into_existing falls back to try_into before into)", "DESIGN.md 3/C05")
+add("C06", "E1", "property-based testing: projection metamorphic relation between two expansions",
+    "Exploration: generated inputs with 2-3 counterparts and dedicated/default instructions of every kind; impls for counterpart A in the full expansion must equal the expansion of the input projected onto A.",
+    TB, "DESIGN.md 3/C06")
+add("C12", "E1", "property-based testing: rewrite metamorphic relation (shortcut -> basic instructions)",
+    "Exploration: every shortcut occurrence (type, member, variant, nested parent, ghost/ghosts) of a generated input is rewritten in place into the tabulated basic instructions; verdict and multiset of impl items must be equal.",
+    TB + "; the shortcut table is transcribed from the README", "DESIGN.md 3/C12")
+add("C13", "E1", "property-based testing: rewrite metamorphic relation (three spellings of one AST)",
+    "Exploration: the same generated AST rendered all-bare, each-wrapped and randomly grouped must give the same accept/reject decision and byte-identical output.",
+    TB, "DESIGN.md 3/C13")
+add("C14", "E1", "property-based testing: reference write-out transformation + equality of two expansions",
+    "Exploration: generated member sequences / trait instruction lists with random non-conflicting repeat, skip_repeat, stop_repeat placements; a reference write_out implementing the property's two sentences on the AST must expand to byte-identical output.",
+    TB + "; write_out (gen_repeat.rs) is the reference model", "DESIGN.md 3/C14")
+
 NOT_YET = {
 }
 
